@@ -393,7 +393,10 @@ def close(got, want, tol):
 def judge_plan(ctype, ks, truth, reals, pairs):
   """Is the float verdict of a *correct* step-down well-posed?  ks: exact
   reflection coefficients, highest stage first, up to the deciding one."""
-  exact = ctype in ("frac", "fraclead")
+  # (integer coefficients are exact as well: a monic integer denominator is
+  # decided by its integer reflection coefficients, a non-monic one is
+  # normalised in exact rationals since fix F39)
+  exact = ctype in ("frac", "fraclead", "int")
   amp = 1.0
   far = all(abs(F(p) ** 2 - 1) >= F(1, 100) for p in reals) and \
         all(abs(F(a) ** 2 + F(b) ** 2 - 1) >= F(1, 100) for a, b in pairs)
@@ -500,6 +503,8 @@ def run_stab(ctx, case):
     ctx.count("stab:judged-" + ("monic" if monic else "non-monic"))
     ctx.count("stab:judged-%s-%s" % (ctype, "monic" if monic else "non-monic"))
     ctx.count("stab:judged-truth-" + tclass)
+    if ctype == "int":
+      ctx.count("stab:judged-int-" + tclass)
     if ctype in ("frac", "fraclead") and any(k == 0 for k in upto):
       ctx.count("stab:judged-exact-with-zero-k")
       ctx.count("stab:judged-exact-with-zero-k-" + tclass)
@@ -793,6 +798,7 @@ def finish(ctx):
   ctx.need("rt:has-|k|>1", 100)
   ctx.need("rt:has-zero-k", 100)
   ctx.need("stab:judged-exact-with-zero-k", 40)
+  ctx.need("stab:judged-int-critical", 20)
   ctx.need("stab:judged-exact-with-zero-k-critical", 5)
   ctx.need("rt:levinson-compared", 500)
   ctx.need("rt:round-trip-compared", 500)
